@@ -67,6 +67,8 @@ def menu(ref: RefStore, reduced=False):
         for o in OTHERS:
             ops.append(("merge", o, True))
             ops.append(("merge", o, False))
+        ops.append(("merge", "self", True))
+        ops.append(("merge", "self", False))
         ops.append(("copy",))
         ops.append(("mol", "A", "m1"))
         ops.append(("mol", "B", "m2"))
@@ -174,7 +176,7 @@ def apply_op(H, ref: RefStore, op, fails, others=None):
         return H, "ok"
     if kind == "merge":
         _, oname, prefix = op
-        other = others[oname] if others and oname in others else make_other(oname)
+        other = H if oname == "self" else (others[oname] if others and oname in others else make_other(oname))
         want = Counter()
         for e in other.edge_list():
             want[(e.rule, tuple(sorted(e.reactants.items())), tuple(sorted(e.products.items())))] += 1
